@@ -14,6 +14,7 @@ package barrier
 
 import (
 	"bytes"
+	"errors"
 	"context"
 	"encoding/binary"
 	"encoding/hex"
@@ -99,6 +100,13 @@ func c10AllZero(b []byte) bool {
 	return true
 }
 
+type c10TxPut struct {
+	key    string
+	val    []byte
+	term   uint32 // newest term when the Put was issued
+	keyOps int    // key operations that had RETURNED between BeginTx and this Put
+}
+
 type c10CT struct {
 	path string
 	pt   []byte
@@ -135,6 +143,14 @@ type c10B struct {
 	sRoot    []byte // root key the standby holds according to the model (the one it was unsealed with / last reloaded)
 	ref      c10KR  // key material of the active node after its last key operation
 	cts      []c10CT
+
+	// otx: a read-write storage transaction of the active node that stays open across other
+	// operations (key operations included); otxPuts: what was put through it and the newest term
+	// at the moment of each Put
+	otx     logical.Transaction
+	otxOps  int // key operations completed while it has been open
+	otxPuts []c10TxPut
+	ntx     int
 
 	steps  []string
 	kinds  []string
@@ -445,6 +461,12 @@ func (e *c10B) sealCheck(b SecurityBarrier, who string) {
 		e.viol("seal-failed", "%s: Seal: %v", who, err)
 		return
 	}
+	if b == e.p {
+		e.txAfterSeal(who)
+		if e.failed {
+			return
+		}
+	}
 	for _, buf := range bufs {
 		if len(buf) > 0 && !c10AllZero(buf) {
 			e.viol("key-material-survives-seal", "%s: a key buffer of the keyring held before Seal is not zeroised after Seal", who)
@@ -593,6 +615,10 @@ func (e *c10B) persisted() {
 // ---------------------------------------------------------------- operations
 
 func (e *c10B) opPut() {
+	if e.otx != nil && e.rng.Chance(1, 2) {
+		e.txPut()
+		return
+	}
 	i := e.rng.Intn(9)
 	k := e.key(i)
 	val := e.rng.Bytes(e.rng.Intn(40))
@@ -633,6 +659,129 @@ func (e *c10B) opPut() {
 	e.r.Count("fresh_put_term_checks", 1)
 	if e.term > 1 {
 		e.r.Count("fresh_put_term_checks_after_rotation", 1)
+	}
+}
+
+// opTx works with a long-lived read-write transaction of the active node: open one, put through
+// the open one, or commit it. A Put issued after a key operation returned must carry the newest
+// term in the raw record once committed, no matter when the transaction was opened.
+func (e *c10B) opTx() {
+	ts, ok := e.p.(logical.TransactionalStorage)
+	if !ok || e.sealed {
+		e.opPut()
+		return
+	}
+	if e.otx == nil {
+		txn, err := ts.BeginTx(c10Ctx)
+		e.step("tx-begin", "begin a read-write transaction (term %d)", e.term)
+		if err != nil {
+			e.viol("put-failed", "BeginTx on an unsealed barrier: %v", err)
+			return
+		}
+		e.otx, e.otxOps, e.otxPuts = txn, 0, nil
+		e.r.Count("transactions_opened", 1)
+		return
+	}
+	if len(e.otxPuts) > 0 && e.rng.Chance(1, 2) {
+		e.txCommit()
+		return
+	}
+	e.txPut()
+}
+
+func (e *c10B) txPut() {
+	e.ntx++
+	k := fmt.Sprintf("%sd/tx%d", e.meta, e.ntx)
+	val := e.rng.Bytes(1 + e.rng.Intn(30))
+	err := e.otx.Put(c10Ctx, &logical.StorageEntry{Key: k, Value: val})
+	e.step("tx-put", "put %s through the open transaction (%d key operation(s) returned since it was opened, newest term %d)", strings.TrimPrefix(k, e.meta), e.otxOps, e.term)
+	if err != nil {
+		e.viol("put-failed", "Put through an open transaction on an unsealed barrier: %v", err)
+		return
+	}
+	e.otxPuts = append(e.otxPuts, c10TxPut{k, val, e.term, e.otxOps})
+}
+
+// txCommit commits the open transaction and looks at the raw records.
+func (e *c10B) txCommit() {
+	if e.otx == nil {
+		return
+	}
+	txn, puts := e.otx, e.otxPuts
+	e.otx, e.otxPuts = nil, nil
+	if e.failed {
+		_ = txn.Rollback(c10Ctx)
+		return
+	}
+	err := txn.Commit(c10Ctx)
+	e.step("tx-commit", "commit the open transaction (%d put(s)) err=%v", len(puts), err)
+	if err != nil {
+		if e.faultArmed || errors.Is(err, physical.ErrTransactionCommitFailure) || errors.Is(err, kit.ErrInjected) {
+			e.r.Count("transactions_commit_refused", 1)
+			return
+		}
+		e.viol("put-failed", "Commit of a transaction on an unsealed barrier: %v", err)
+		return
+	}
+	e.r.Count("transactions_committed", 1)
+	for _, p := range puts {
+		t, _, ok := e.header(p.key)
+		if !ok {
+			e.viol("entry-lost", "committed transactional Put(%s) left no record", p.key)
+			return
+		}
+		e.data[p.key], e.dterm[p.key] = p.val, t
+		delete(e.gone, p.key)
+		if t != p.term {
+			if p.keyOps > 0 && t < p.term {
+				e.viol("transactional-write-after-rotation-under-older-term", "Put(%s) was issued through a transaction opened earlier, after %d key operation(s) had returned and the newest term was %d; the committed raw record carries term %d", strings.TrimPrefix(p.key, e.meta), p.keyOps, p.term, t)
+			} else {
+				e.viol("new-write-old-term", "transactional Put(%s) carries term %d in its physical header, newest term at the time of the Put was %d", p.key, t, p.term)
+			}
+			return
+		}
+		e.r.Count("transactional_put_term_checks", 1)
+		if p.keyOps > 0 {
+			e.r.Count("transactional_put_term_checks_after_key_operation_in_an_older_transaction", 1)
+		}
+	}
+}
+
+// txAfterSeal: a transaction opened before the Seal must be refused everything afterwards.
+func (e *c10B) txAfterSeal(who string) {
+	if e.otx == nil {
+		return
+	}
+	txn := e.otx
+	e.otx, e.otxPuts = nil, nil
+	defer func() { _ = txn.Rollback(c10Ctx) }()
+	probe := e.meta + "d/none"
+	for k := range e.data {
+		probe = k
+		break
+	}
+	type res struct {
+		op  string
+		err error
+	}
+	var out []res
+	err := txn.Put(c10Ctx, &logical.StorageEntry{Key: e.meta + "d/sealed-tx-probe", Value: []byte("x")})
+	out = append(out, res{"tx.put", err})
+	_, err = txn.Get(c10Ctx, probe)
+	out = append(out, res{"tx.get", err})
+	err = txn.Delete(c10Ctx, probe)
+	out = append(out, res{"tx.delete", err})
+	_, err = txn.List(c10Ctx, e.meta+"d/")
+	out = append(out, res{"tx.list", err})
+	_, err = txn.ListPage(c10Ctx, e.meta+"d/", "", 10)
+	out = append(out, res{"tx.listpage", err})
+	for _, o := range out {
+		if o.err == nil {
+			e.viol("sealed-op-served", "%s: %s through a transaction opened before the Seal succeeded on the sealed barrier", who, o.op)
+			return
+		}
+		e.r.Count("sealed_api_calls_refused", 1)
+		e.r.Count("operations_of_a_transaction_opened_before_seal_refused", 1)
 	}
 }
 
@@ -691,6 +840,7 @@ func (e *c10B) opRotate(ha bool) {
 	}
 	e.term = nt
 	e.keyOps++
+	e.otxOps++
 	e.half = false
 	e.ref = c10Snap(c10Raw(e.p).keyring)
 	e.r.Count("rotations", 1)
@@ -735,6 +885,7 @@ func (e *c10B) opRotateRoot() {
 	e.root = nk
 	e.half = false
 	e.keyOps++
+	e.otxOps++
 	e.ref = c10Snap(c10Raw(e.p).keyring)
 	e.r.Count("root_rotations", 1)
 	if err := e.p.VerifyRoot(nk); err != nil {
@@ -771,6 +922,7 @@ func (e *c10B) opReload() {
 		return
 	}
 	e.ref = after
+	e.otxOps++
 	e.r.Count("reloads", 1)
 }
 
@@ -1222,6 +1374,12 @@ func (e *c10B) opPromote(style, keyOp string) {
 	if e.failed || e.s == nil || e.sSealed || e.half {
 		return
 	}
+	if !e.sealed {
+		e.txCommit()
+		if e.failed {
+			return
+		}
+	}
 	if style == "upgrade-only" && !e.pathIntact() {
 		style = "reload"
 	}
@@ -1357,8 +1515,10 @@ func (e *c10B) run(n int) {
 			continue
 		}
 		switch x := e.rng.Intn(100); {
-		case x < 26:
+		case x < 18:
 			e.opPut()
+		case x < 26:
+			e.opTx()
 		case x < 32:
 			e.opDelete()
 		case x < 38:
@@ -1546,6 +1706,12 @@ func (e *c10B) finish() {
 	if e.failed {
 		return
 	}
+	if !e.sealed {
+		e.txCommit()
+		if e.failed {
+			return
+		}
+	}
 	if e.sealed {
 		e.opUnseal()
 	} else {
@@ -1630,6 +1796,9 @@ func TestVerif_C10_BarrierHistories(t *testing.T) {
 	r.Require("standby_reads_while_behind_failed_legitimately", 300/div)
 	r.Require("standby_rereads_ok_of_terms_installed_by_the_upgrade_path", 300/div)
 	r.Require("standby_reads_ok", 5000/div)
+	r.Require("transactional_put_term_checks", 45/div)
+	r.Require("transactional_put_term_checks_after_key_operation_in_an_older_transaction", 24/div)
+	r.Require("operations_of_a_transaction_opened_before_seal_refused", 100/div)
 }
 
 func TestVerif_C10_BarrierFaults(t *testing.T) {
@@ -1660,6 +1829,7 @@ func TestVerif_C10_BarrierFaults(t *testing.T) {
 				if !e.failed && e.sealed {
 					e.opUnseal()
 				}
+				e.txCommit()
 				for i := 0; i < 2 && !e.failed; i++ {
 					e.opPut()
 				}
@@ -1783,6 +1953,7 @@ func TestVerif_C10_BarrierCrash(t *testing.T) {
 			if e.sealed {
 				e.opUnseal()
 			}
+			e.txCommit()
 			for i := 0; i < 3 && !e.failed; i++ {
 				e.opPut()
 			}
